@@ -120,6 +120,12 @@ class Run(object):
     def note(self, s):
         self.notes.append(s)
 
+    def tolerated(self, clause):
+        """A discrepancy no larger than floating-point rounding (relative 1e-9): the contracts are stated and proved in
+        real arithmetic (assumption A-REAL); such cases are counted and reported, not raised."""
+        self.tol = getattr(self, "tol", {})
+        self.tol[clause] = self.tol.get(clause, 0) + 1
+
     def exhaustive(self, what):
         self.exhaustive_parts.append(what)
 
@@ -145,7 +151,8 @@ class Run(object):
             "violations": [v for lst in self.viol.values() for v in lst],
             "violation_count": self.nviol,
             "samples": self.samples[:6],
-            "notes": self.notes,
+            "notes": self.notes + (["float-rounding-level discrepancies tolerated (A-REAL): %s" % getattr(self, "tol")]
+                                   if getattr(self, "tol", None) else []),
             "exhaustive_parts": self.exhaustive_parts,
             "wall_s": round(time.time() - self.t0, 2),
             "repo": REPO,
